@@ -3942,9 +3942,7 @@ class ProfilingDataset(Dataset):
         return self.input_dataset.keys()
 
     def __iter__(self, with_key=False):
-        if with_key:
-            raise _ItemsNotDefined(self.__class__.__name__)
-        it = iter(self.input_dataset)
+        it = self.input_dataset.__iter__(with_key=with_key)
         while True:
             start = self.timestamp()
             self.hit_count[0] += 1
